@@ -501,7 +501,14 @@ def run(tier, seed, replay=None):
                 elif i in big:
                     cap_cases.append(i)
                     rb = big[i]
-                    if rb.get("success") and "exc" not in rb and all(np.isfinite(rb["mtv"])):
+                    if rb.get("success") and "exc" not in rb and (rb.get("faces_duplicate") or rb.get("faces_open_edges")):
+                        # not the F19 class (a polytope that needs more than 64 faces): the buffer filled up with leaked faces
+                        cap_cases.pop()
+                        R.failure(what + f"; with max_faces=4096 EPA succeeds, but the polytope it returns then has {rb.get('faces_duplicate')} duplicate "
+                                  f"triangles and {rb.get('faces_open_edges')} edges that are not shared by exactly two triangles (n_faces={rb.get('n_faces')}): "
+                                  "the 64-slot face buffer was exhausted by faces that should have been removed, not by the size of the polytope",
+                                  dict(c, result=r, result_big=rb), site="epa.epa")
+                    elif rb.get("success") and "exc" not in rb and all(np.isfinite(rb["mtv"])):
                         to_judge.append((i, c, rb))
                     else:
                         R.failure(what + "; with max_faces=4096, max_loose_edges=2048, max_iter=1024: "
@@ -517,6 +524,8 @@ def run(tier, seed, replay=None):
                 R.failure("success=True with a non-finite vector", dict(c, result=r), site="epa.epa")
             continue
         bump(outcome, "success")
+        if r.get("faces_duplicate") or r.get("faces_open_edges"):
+            bump(outcome, "success_but_returned_faces_not_a_closed_surface")
         to_judge.append((i, c, r))
 
     # float oracles + witness builders, in parallel
